@@ -270,4 +270,163 @@ theorem Active.add_ok (own : PeerId) (c : Conn) (s : Active) (h : s.Inv) (hfresh
         · exact List.mem_append_left _ (h.closedAdded i hc)
         · simp at hc; subst hc; simp
 
+/-! ### per-peer projection of the registry (used by C06) -/
+
+theorem lookupConn_append (l m : List (PeerId × Conn)) (q : PeerId) :
+    lookupConn (l ++ m) q = (lookupConn l q).or (lookupConn m q) := by
+  induction l with
+  | nil => simp [lookupConn]
+  | cons e t ih =>
+    obtain ⟨p, c⟩ := e
+    by_cases h : p = q <;> simp [lookupConn, h, ih]
+
+theorem lookupConn_erase_ne (l : List (PeerId × Conn)) (p q : PeerId) (h : p ≠ q) :
+    lookupConn (eraseConn l p) q = lookupConn l q := by
+  induction l with
+  | nil => rfl
+  | cons e t ih =>
+    obtain ⟨r, c⟩ := e
+    by_cases hr : r = p
+    · subst hr; simp [eraseConn, lookupConn, h]; simpa [eraseConn] using ih
+    · by_cases hq : r = q
+      · subst hq
+        have : ¬ r = p := hr
+        simp [eraseConn, lookupConn, this]
+      · simp [eraseConn, lookupConn, hr, hq]; simpa [eraseConn] using ih
+
+theorem lookupConn_erase_self (l : List (PeerId × Conn)) (p : PeerId) :
+    lookupConn (eraseConn l p) p = none := by
+  induction l with
+  | nil => rfl
+  | cons e t ih =>
+    obtain ⟨r, c⟩ := e
+    by_cases hr : r = p
+    · simp [eraseConn, hr]; simpa [eraseConn] using ih
+    · simp [eraseConn, lookupConn, hr]; simpa [eraseConn] using ih
+
+theorem remove_lookup_ne (s : Active) (p q : PeerId) (r : Reason) (h : p ≠ q) :
+    lookupConn (s.remove p r).conns q = lookupConn s.conns q := by
+  unfold Active.remove
+  split
+  · rfl
+  · simp [lookupConn_erase_ne _ _ _ h]
+
+/-- an operation about peer `p` leaves the entry of every other peer alone -/
+theorem step_lookup_ne (own : PeerId) (s : Active) (op : Op) (q : PeerId) (h : op.peer ≠ q) :
+    lookupConn (s.step own op).conns q = lookupConn s.conns q := by
+  cases op with
+  | add c =>
+    simp only [Op.peer] at h
+    simp only [Active.step, Active.add]
+    split
+    · simp [lookupConn_append, lookupConn, h]
+    · split
+      · simp [lookupConn_append, lookupConn, h, lookupConn_erase_ne _ _ _ h]
+      · rfl
+  | remove p r => exact remove_lookup_ne s p q r h
+  | removeStable p id r =>
+    simp only [Op.peer] at h
+    simp only [Active.step, Active.removeStable]
+    split
+    · rfl
+    · split
+      · exact remove_lookup_ne s p q r h
+      · rfl
+
+/-- what an operation about peer `q` does to `q`'s entry depends on `q`'s entry only -/
+theorem step_lookup_same (own : PeerId) (s s' : Active) (op : Op) (q : PeerId) (h : op.peer = q)
+    (hs : lookupConn s.conns q = lookupConn s'.conns q) :
+    lookupConn (s.step own op).conns q = lookupConn (s'.step own op).conns q := by
+  cases op with
+  | add c =>
+    simp only [Op.peer] at h; subst h
+    simp only [Active.step, Active.add]
+    rw [← hs]
+    cases hl : lookupConn s.conns c.peer with
+    | none => simp [lookupConn_append, lookupConn, hl, ← hs]
+    | some old =>
+      simp only
+      split
+      · simp [lookupConn_append, lookupConn, lookupConn_erase_self]
+      · simpa [hl] using hs
+  | remove p r =>
+    simp only [Op.peer] at h; subst h
+    simp only [Active.step, Active.remove]
+    rw [← hs]
+    cases hl : lookupConn s.conns p with
+    | none => simpa [hl] using hs
+    | some c => simp [lookupConn_erase_self]
+  | removeStable p id r =>
+    simp only [Op.peer] at h; subst h
+    simp only [Active.step, Active.removeStable, Active.remove]
+    rw [← hs]
+    cases hl : lookupConn s.conns p with
+    | none => simpa [hl] using hs
+    | some c =>
+      simp only
+      split
+      · simp [lookupConn_erase_self]
+      · simpa [hl] using hs
+
+theorem step_log_ne (own : PeerId) (s : Active) (op : Op) (q : PeerId) (h : op.peer ≠ q) :
+    eventsOf q (s.step own op).log = eventsOf q s.log := by
+  cases op with
+  | add c =>
+    simp only [Op.peer] at h
+    simp only [Active.step, Active.add]
+    split
+    · simp [eventsOf, List.filter_append, Event.peer, h]
+    · split
+      · simp [eventsOf, List.filter_append, Event.peer, h]
+      · rfl
+  | remove p r =>
+    simp only [Op.peer] at h
+    simp only [Active.step, Active.remove]
+    split
+    · rfl
+    · simp [eventsOf, List.filter_append, Event.peer, h]
+  | removeStable p id r =>
+    simp only [Op.peer] at h
+    simp only [Active.step, Active.removeStable, Active.remove]
+    split
+    · rfl
+    · split
+      · simp [eventsOf, List.filter_append, Event.peer, h]
+      · rfl
+
+theorem step_log_same (own : PeerId) (s s' : Active) (op : Op) (q : PeerId)
+    (hs : lookupConn s.conns q = lookupConn s'.conns q) (hl : eventsOf q s.log = eventsOf q s'.log)
+    (h : op.peer = q) :
+    eventsOf q (s.step own op).log = eventsOf q (s'.step own op).log := by
+  cases op with
+  | add c =>
+    simp only [Op.peer] at h; subst h
+    simp only [Active.step, Active.add]
+    rw [← hs]
+    cases hlk : lookupConn s.conns c.peer with
+    | none => simp [eventsOf, List.filter_append] at hl ⊢; rw [hl]
+    | some old =>
+      simp only
+      split
+      · simp [eventsOf, List.filter_append] at hl ⊢; rw [hl]
+      · exact hl
+  | remove p r =>
+    simp only [Op.peer] at h; subst h
+    simp only [Active.step, Active.remove]
+    rw [← hs]
+    cases hlk : lookupConn s.conns p with
+    | none => exact hl
+    | some c => simp [eventsOf, List.filter_append] at hl ⊢; rw [hl]
+  | removeStable p id r =>
+    simp only [Op.peer] at h; subst h
+    simp only [Active.step, Active.removeStable, Active.remove]
+    rw [← hs]
+    cases hlk : lookupConn s.conns p with
+    | none => exact hl
+    | some c =>
+      simp only
+      split
+      · simp [eventsOf, List.filter_append] at hl ⊢; rw [hl]
+      · exact hl
+
 end Anemo
